@@ -144,5 +144,18 @@ def gen_c12_random(rnd, tier):
         if not faces:
             continue
         rnd.shuffle(faces)
-        out.append({'m': 'topo', 'op': 'mesh', 'wd': 3000, 'reps': 4, 'nv': len(vpos), 'vpos': vpos, 'faces': faces})
+        rec = {'m': 'topo', 'op': 'mesh', 'wd': 3000, 'reps': 4, 'nv': len(vpos), 'vpos': vpos, 'faces': faces,
+               'sc': rnd.choice((0, 0, -22, -10, 12))}
+        out.append(rec)
+        # the same kind of mesh assembled in two steps: part one is queried, then a shifted copy of another grid is appended
+        if rnd.random() < 0.4:
+            used = sorted({i for f in faces for i in f})
+            ren = {o: k for k, o in enumerate(used)}
+            va = [vpos[o] for o in used]
+            fa = [[ren[i] for i in f] for f in faces]
+            dx = rnd.choice((0, w + 2))          # overlapping position (vertex-only coincidences do not join) or disjoint
+            vb = [[p[0] + dx, p[1], p[2] + 1] for p in va]
+            fb = [[i + len(va) for i in f] for f in fa[: max(1, len(fa) // 2)]]
+            out.append({'m': 'topo', 'op': 'mesh', 'wd': 3000, 'reps': 3, 'nv': 2 * len(va), 'vpos': va + vb, 'faces': fa + fb,
+                        'split': [len(va), len(fa)], 'sc': rnd.choice((0, -3))})
     return out
